@@ -21,4 +21,19 @@ PROPS = {
         "level_text": "Theorems (Props/C11.lean) for all interval lists, bounds, capacities >= 2 and operation histories: representation invariant (sorted, disjoint, < capacity) is preserved and no point of the exact result is ever lost (incl. capacity collapses); exactness below capacity. The model is tied to intervals.rs by running both on generated histories (i64/f64/String) and to the DataType lattice laws by an implementation-side law oracle.",
         "level_note": "Trusted: Lean kernel; propext/Classical.choice/Quot.sound; the correspondence harness; rank encoding of bounds. Modelled, not verified: the Rust index arithmetic is modelled by structural recursion (tied by correspondence only); DataType-level laws are checked by the oracle sweep, see DESIGN.md.",
     },
+    "C15": {
+        "lean_modules": ["QrlewModel.Props.C15"],
+        "streams": [
+            {"name": "hier", "n_quick": 40000, "n_thorough": 2000000},
+            {"name": "scope", "n_quick": 6000, "n_thorough": 200000, "compare": False},
+        ],
+        "rule": "hier: random path maps (0-8 entries over a 5-letter alphabet, keys derived from one another so that suffixes are shared/nested, permuted insertion order) x 6 lookups "
+                "(exact keys, proper suffixes, longer paths, unrelated); non-trivial = at least 2 entries. scope: generated 2-3 way joins (ON/USING/NATURAL, aliases, self-joins) over tables "
+                "with overlapping column names, one reference under test in SELECT/WHERE/GROUP BY/ORDER BY",
+        "trusted_base": COMMON_TRUST + ["BTreeMap modelled as an association list with distinct keys (order-independence is theorem lookup_perm)"],
+        "assumptions": ["only Hierarchy::get_key_value is modelled; the composition of column hierarchies in sql/relation.rs is checked by the implementation-side oracle only"],
+        "technique": "Lean 4 proof (fold = unique-compatible-entry characterisation, order independence) + model/implementation correspondence + SQL-level ambiguity oracle",
+        "level_text": "Theorems (Props/C15.lean) for every path map and lookup path: exact key wins; otherwise the single entry agreeing on all shared trailing components, none if several; the result is never one of several candidates and does not depend on entry order. Tied to hierarchy.rs by running Hierarchy::get_key_value and the model on generated maps; the query-level half (ambiguous unqualified columns across joins are refused, USING/NATURAL columns resolve) is an oracle on Relation::try_from.",
+        "level_note": "Trusted: Lean kernel; the harness; sqlparser. Modelled, not verified: sql/relation.rs scope composition (oracle only). A panic on an ambiguous reference counts as a refusal for C15 and is reported under C18.",
+    },
 }
